@@ -33,8 +33,14 @@ class LoopCheck(Check):
         "thorough": {"N": [2, 3], "d": [1, 2], "T": 3, "schedules": list(smc_loop.SCHEDULES)},
     }
 
+    # schedules of the thorough tier; adaptive schedules with N = 3 are expensive
+    # (hundreds of bisection paths per iteration), so each property lists the
+    # ones its clauses need
+    thorough_schedules = ["fixed1", "fixed2", "fixed4", "adaptive_half"]
+    adaptive_N3 = ("adaptive_half",)
+
     def schedules(self, tier):
-        return ["fixed1", "fixed2", "adaptive_half"] if tier == "quick" else ["fixed1", "fixed2", "fixed4", "adaptive_half", "adaptive_cap2", "adaptive_free"]
+        return ["fixed1", "fixed2", "adaptive_half"] if tier == "quick" else list(self.thorough_schedules)
 
     def configs(self, tier):
         out = []
@@ -45,7 +51,7 @@ class LoopCheck(Check):
                         continue
                     samplers = ["MiniPCNSMC"] if tier == "quick" else ["MiniPCNSMC", "EmceeSMC"]
                     for s in samplers:
-                        if s == "EmceeSMC" and sched in ("adaptive_half", "adaptive_cap2"):
+                        if s == "EmceeSMC" and sched.startswith("adaptive"):
                             continue  # EmceeSMC.sample does not expose min_step / max_n_steps
                         c = {
                             "name": f"{flow}-{s}-{sched}-{'nf' if n_final else 'std'}",
@@ -53,9 +59,9 @@ class LoopCheck(Check):
                             "schedule": sched,
                             "n_final": n_final,
                             "sampler": s,
-                            "N": 3 if (sched.startswith("adaptive") and tier != "quick") else 2,
+                            "N": 3 if (sched in self.adaptive_N3 and tier != "quick") else 2,
                             "d": 1,
-                            "T": 4 if sched.startswith("fixed4") else (2 if tier == "quick" else 3),
+                            "T": 4 if sched.startswith("fixed4") else (2 if (tier == "quick" or sched == "adaptive_free") else 3),
                             "D": 4,
                             "timeout_ms": 120000,
                             "split_depth": 8 if sched.startswith("adaptive") else 2,
